@@ -6,6 +6,7 @@ import (
 	"context"
 	"encoding/hex"
 	"fmt"
+	"io"
 	"strings"
 	"sync"
 	"sync/atomic"
@@ -20,6 +21,8 @@ import (
 	pd "github.com/tikv/pd/client"
 	"github.com/tikv/pd/client/clients/tso"
 	"github.com/tikv/pd/client/pkg/caller"
+	"google.golang.org/grpc/codes"
+	"google.golang.org/grpc/status"
 )
 
 // ---------------------------------------------------------------- trace
@@ -442,6 +445,13 @@ func (g *gate) SendRequest(ctx context.Context, addr string, req *tikvrpc.Reques
 	id := g.reqSeq.Add(1)
 	f := reqFields(req)
 	f["idx"] = idx
+	// "dropreq:<errkind>" / "dropresp:<errkind>": the lost request / answer surfaces as one of the errors a transport can return
+	errKind := ""
+	if strings.HasPrefix(act, "dropreq:") || strings.HasPrefix(act, "dropresp:") {
+		i := strings.Index(act, ":")
+		errKind, act = act[i+1:], act[:i]
+		f["errkind"] = errKind
+	}
 	f["act"] = act
 	// sending and dying are atomic with respect to each other: no send is recorded after the crash
 	g.mu.Lock()
@@ -467,7 +477,7 @@ func (g *gate) SendRequest(ctx context.Context, addr string, req *tikvrpc.Reques
 	g.holdIfAsked(req, f)
 	switch {
 	case act == "dropreq":
-		return nil, errors.New("verif gate: request lost (connection reset)")
+		return nil, lostErr(errKind, "verif gate: request lost (connection reset)")
 	case strings.HasPrefix(act, "regionerr:"):
 		re := fabricateRegionErr(strings.TrimPrefix(act, "regionerr:"), req)
 		resp, err := tikvrpc.GenRegionErrorResp(req, re)
@@ -536,7 +546,7 @@ func (g *gate) SendRequest(ctx context.Context, addr string, req *tikvrpc.Reques
 		return g.block(ctx)
 	}
 	if act == "dropresp" {
-		return nil, errors.New("verif gate: response lost (deadline exceeded)")
+		return nil, lostErr(errKind, "verif gate: response lost (deadline exceeded)")
 	}
 	if act == "cancelresp" {
 		// the request was applied; the caller gives up (its context is cancelled) before the answer arrives
@@ -553,6 +563,28 @@ func (g *gate) SendRequest(ctx context.Context, addr string, req *tikvrpc.Reques
 	g.trace.add(Event{Kind: "reply", Client: g.id, ReqID: id, Cmd: req.Type.String(), F: rf})
 	g.mu.Unlock()
 	return resp, err
+}
+
+// lostErr: what the caller of SendRequest sees when a request or its answer is lost. The transport can report that in
+// several ways and the client's classification code (isRPCError, onSendFail, the undetermined marking) branches on them.
+func lostErr(kind, msg string) error {
+	switch kind {
+	case "ctx_canceled":
+		return errors.WithStack(context.Canceled)
+	case "ctx_deadline":
+		return errors.WithStack(context.DeadlineExceeded)
+	case "grpc_canceled":
+		return errors.WithStack(status.Error(codes.Canceled, "grpc: the client connection is closing"))
+	case "grpc_unavailable":
+		return errors.WithStack(status.Error(codes.Unavailable, "transport is closing"))
+	case "grpc_deadline":
+		return errors.WithStack(status.Error(codes.DeadlineExceeded, "context deadline exceeded"))
+	case "grpc_unknown":
+		return errors.WithStack(status.Error(codes.Unknown, "stream terminated by RST_STREAM"))
+	case "eof":
+		return errors.WithStack(io.EOF)
+	}
+	return errors.New(msg)
 }
 
 // normaliseCheckNotExistsMinCommit: environment normalisation U6 (docs/TXN.md). For an async-commit / 1PC prewrite whose
